@@ -95,8 +95,26 @@ class SchemaDirective(SchemaVisitor):
         self.args = args or {}
 
 
+def _directive_nodes(root: _ast.Node) -> Set[int]:
+    # Identity of every directive node written below `root`.
+    found = set()  # type: Set[int]
+    stack = [root]  # type: list
+    while stack:
+        node = stack.pop()
+        if isinstance(node, _ast.Directive):
+            found.add(id(node))
+        elif isinstance(node, _ast.Node):
+            stack.extend(getattr(node, attr, None) for attr in node._props())
+        elif isinstance(node, (list, tuple)):
+            stack.extend(node)
+    return found
+
+
 def apply_schema_directives(
-    schema: Schema, schema_directives: Sequence[TSchemaDirective]
+    schema: Schema,
+    schema_directives: Sequence[TSchemaDirective],
+    *,
+    within: Optional[_ast.Document] = None
 ) -> Schema:
     """
     Apply :class:`~py_gql.schema.SchemaDirective` implementers to a given schema.
@@ -117,13 +135,20 @@ def apply_schema_directives(
         schema: Schema to modify
         schema_directives: List of schema directives (`~py_gql.schema.SchemaDirective`).
             Each directive must implement the `definition` attribute.
+        within: When set, only the directives written in that document are
+            applied. :func:`~py_gql.sdl.extend_schema` uses this to apply the
+            directives of the extension document only: the elements of the
+            schema being extended keep their parse nodes, and the directives
+            found there have already been applied when it was built.
 
     Returns:
         Modified schema.
 
     """
     return _SchemaDirectivesApplicationVisitor(
-        schema_directives, schema.directives
+        schema_directives,
+        schema.directives,
+        None if within is None else _directive_nodes(within),
     ).on_schema(schema)
 
 
@@ -132,8 +157,9 @@ class _SchemaDirectivesApplicationVisitor(SchemaVisitor):
         self,
         schema_directives: Sequence[TSchemaDirective],
         directives: Dict[str, Directive],
+        within: Optional[Set[int]] = None,
     ):
-
+        self._within = within
         self._defs = {}  # type: Dict[str, Tuple[Directive, TSchemaDirective]]
 
         for sd in schema_directives:
@@ -162,6 +188,9 @@ class _SchemaDirectivesApplicationVisitor(SchemaVisitor):
         applied = set()  # type: Set[str]
 
         for node in _find_directives(definition):
+            if self._within is not None and id(node) not in self._within:
+                continue
+
             name = node.name.value
 
             if name in SPECIFIED_DIRECTIVE_NAMES:
